@@ -13,7 +13,7 @@ from ..model import AnalysisError, Model
 from ..monomial import Denoter, Mono
 from ..report import Report, REFUTED
 from ..setalg import SetAlg
-from ..symeval import Evaluator
+from ..symeval import Evaluator, dnf_paths
 from ..terms import Term, const, show, subterms, var
 from .common import construct, exc_name, loc, return_paths, short, typed
 from .dslcommon import DSL, DSL_PRIMS, EXPR, classes_consistent, concrete_expression_classes, kind_of, mentions
@@ -77,7 +77,7 @@ def run(model: Model, rep: Report, tier: str) -> None:
         slf = typed(ev, "self", ("cls", canon_cls.qname))
         e = typed(ev, "expression", ("cls", K.qname))
         ev.exact_terms.add(e)
-        paths = ev.run(canon, {"expression": e}, self_term=slf)
+        paths = dnf_paths(ev.run(canon, {"expression": e}, self_term=slf))
         rets = return_paths(paths)
         in_quant = K.name in QUANT
         # R10.2
